@@ -5,8 +5,11 @@ Model: PybropsModel/Model/Meiosis.lean (`segLoop`/`gameteLoop` transcribe the se
 `mat_meiosis` / `dense_meiosis`; `mateE`, `dhE` transcribe `mat_mate`, `mat_dh`) and
 PybropsModel/Model/Mating.lean (`generate` / `mate` transcribe the seven `mate()` methods, `groupTaxa`
 the final `group_taxa()`, `specMate` is the decidable Spec the harness evaluates on the
-implementation's outputs).  Helper lemmas: PybropsModel/Lemmas/{MeiosisLoop,Mosaic,Repeat,
-MatingStages,MatingProtocols,MatingSort,MatingSpec}.lean.
+implementation's outputs; `mateFull` adds numpy's index rule for `xconfig` and the marker metadata);
+PybropsModel/Model/Pedigree.lean (`lineage`, the pedigree terms, the joint test `pedCheck`, `specMate`).
+Helper lemmas: PybropsModel/Lemmas/{MeiosisLoop,Mosaic,MosaicPath,Repeat,MatingStages,MatingProtocols,
+MatingSort,MatingSpec,MatingTotal,MatingFull,Pedigree,PedigreeSpec,PedCheck,PedCheckConv,SpecSound,
+SpecComplete,SpecCompleteMate}.lean.
 
 Conventions.  `mate … = .ok out` says the model accepts the input (rectangular diploid matrix,
 xconfig of the protocol's width, count arrays of length ncross, every selected index inside the
@@ -19,6 +22,10 @@ import PybropsModel.Lemmas.MosaicPath
 import PybropsModel.Lemmas.MatingDemo
 import PybropsModel.Lemmas.PedigreeSpec
 import PybropsModel.Lemmas.MatingTotal
+import PybropsModel.Lemmas.SpecSound
+import PybropsModel.Lemmas.MatingFull
+import PybropsModel.Lemmas.SpecCompleteMate
+import PybropsModel.Lemmas.PedCheckConv
 set_option autoImplicit false
 set_option linter.unusedSectionVars false
 
@@ -192,19 +199,115 @@ theorem order_preserved_counterexample :
       ≠ (Np.arange 9999998 4).map (name [50, 119]) := by
   decide +kernel
 
+/-! ## 2b. The public call: marker metadata and numpy's index rule -/
+
+section full
+variable {α ρ μ : Type} [Preorder ρ] [DecidableLT ρ] [Zero ρ]
+variable {P : Proto} {pop : Pop α} {pg : VMeta μ} {xc : List (List Int)} {nmating nprogeny : Cnt} {nself : Nat}
+    {xo : List ρ} {pc fc : Nat} {draws : List (DrawMat ρ)} {out : Out α} {m : VMeta μ}
+
+/-- **Marker metadata.**  All thirteen marker-metadata arrays of the progeny matrix (the nine
+    constructor keywords incl. `vrnt_hapalt` / `vrnt_hapref`, and the four chromosome-group arrays
+    assigned afterwards) are those of `pgmat`, for every protocol (`Mating.progenyMeta` transcribes
+    the construction field by field; before 7fe10396 its `hapalt`/`hapref` were `none`). -/
+theorem metadata_carried_over (h : mateFull P pop pg xc nmating nprogeny nself xo pc fc draws = .ok (out, m)) :
+    m = pg :=
+  (mateFull_inv h).2
+
+/-- The public call with an integer configuration is the core model on the configuration with
+    numpy's index rule applied (`wrapIdx`: `-ntaxa ≤ s < 0` names taxon `s + ntaxa`), so every theorem
+    of section 2 holds of it with `cross` read through `wrapConfig`. -/
+theorem full_call_reduces_to_core (h : mateFull P pop pg xc nmating nprogeny nself xo pc fc draws = .ok (out, m)) :
+    mate P pop (wrapConfig pop.length xc) nmating nprogeny nself xo pc fc draws = .ok out :=
+  (mateFull_inv h).1
+
+/-- **Negative indices.**  Replacing every negative entry `s` of a configuration by `s + ntaxa` changes
+    nothing: genotypes, labels, names, counters, metadata, rejections. -/
+theorem negative_index_wraps (hv : ∀ r ∈ xc, ∀ s ∈ r, -(pop.length : Int) ≤ s) :
+    mateFull P pop pg (xc.map (fun r => r.map (fun s => if s < 0 then s + pop.length else s)))
+        nmating nprogeny nself xo pc fc draws
+      = mateFull P pop pg xc nmating nprogeny nself xo pc fc draws := by
+  unfold mateFull
+  rw [wrapConfig_shift pop.length xc hv]
+
+/-- The public call accepts every valid input; an index is valid iff `-ntaxa ≤ s < ntaxa`. -/
+theorem full_call_accepts_valid_inputs {nm np : List Nat} (hs : popShaped pop xo.length = true)
+    (hw : ∀ r ∈ xc, r.length = P.nparent)
+    (hidx : ∀ r ∈ xc, ∀ s ∈ r, -(pop.length : Int) ≤ s ∧ s < pop.length)
+    (hnm : nmating.expand xc.length = .ok nm) (hnp : nprogeny.expand xc.length = .ok np)
+    (hd : DrawsFit (drawRows P nm np nself) xo.length draws) :
+    ∃ out, mateFull P pop pg xc nmating nprogeny nself xo pc fc draws = .ok (out, pg) :=
+  mateFull_accepts P hs hw hidx hnm hnp hd
+
+end full
+
 /-! ## 3. The Spec oracle -/
 
 section spec
 variable {α ρ : Type} [Preorder ρ] [DecidableLT ρ] [Zero ρ] [BEq α] [LawfulBEq α]
 
 /-- The decidable Spec that the harness evaluates on the implementation's outputs
-    (`Mating.specMate`: count, family labels, names, counters, per-row mosaic test, DH homozygosity)
+    (`Mating.specMate`: count, family labels, names, counters, per-row mosaic test, DH homozygosity,
+    joint pedigree test for nself ≤ 2)
     holds of every output of the model, for every protocol and every input. -/
 theorem spec_sound {P : Proto} {pop : Pop α} {xc : List (List Nat)} {nmating nprogeny : Cnt} {nself : Nat}
     {xo : List ρ} {pc fc : Nat} {draws : List (DrawMat ρ)} {out : Out α}
     (h : mate P pop xc nmating nprogeny nself xo pc fc draws = .ok out) (hnn : Nonneg draws) :
     (specMate P pop xc nmating nprogeny nself xo pc fc out).1 = true :=
   spec_of_mate h hnn
+
+/-- **Joint pedigree test.**  `Mating.pedCheck` — reachability over the hidden gamete states of
+    the pedigree term `pedOf P nself cross`, both chromosome copies read through the *same* state —
+    accepts every individual that has the pedigree `lineage` prescribes (any `nself`; the Spec uses
+    it for `nself ≤ 2`).  So the Spec demands of the implementation's rows no more than the theorem
+    `progeny_pedigree` proves of the model's. -/
+theorem joint_pedigree_test_accepts {pop : Pop α} {xo : List ρ} (hs : popShaped pop xo.length = true)
+    (P : Proto) (nself : Nat) (cross : List Nat) (c : Ind α) (h : lineage xo P nself pop cross c) :
+    pedCheck (pedOf P nself cross) pop xo c = true :=
+  pedCheck_of_lineage (shaped_of_popShaped hs) P nself cross c h
+
+/-- … and it accepts nothing else: when the configuration row names taxa of the matrix, the test is
+    true exactly of the individuals with the prescribed lineage (the intermediate hybrids are read off
+    the run of hidden states the reachability test finds).  `pedCheck` decides `lineage`. -/
+theorem joint_pedigree_test_decides {pop : Pop α} {xo : List ρ} (hs : popShaped pop xo.length = true)
+    (P : Proto) (nself : Nat) (cross : List Nat) (hv : ∀ k, k < P.nparent → cross.getD k 0 < pop.length)
+    (c : Ind α) :
+    pedCheck (pedOf P nself cross) pop xo c = true ↔ lineage xo P nself pop cross c :=
+  pedCheck_iff_lineage (shaped_of_popShaped hs) P nself cross hv c
+
+/-- `lineage` is the meaning of the pedigree term the test walks over. -/
+theorem lineage_is_term_meaning (xo : List ρ) (P : Proto) (nself : Nat) (pop : Pop α) (cross : List Nat) :
+    lineage xo P nself pop cross = (pedOf P nself cross).sat xo pop :=
+  lineage_eq_sat xo P nself pop cross
+
+/-- **Completeness at the gamete.**  Conversely to `gamete_mosaic` / `phase_switch_only_where_xo_pos`:
+    every mosaic of the two copies of an individual (switches only where xo > 0; first marker with
+    positive crossover probability, so that the start copy is free) is the gamete the model produces
+    for suitable non-negative draws. -/
+theorem gamete_realised {ρ' : Type} [LinearOrder ρ'] [Zero ρ'] (xo : List ρ') (ind : Ind α) (g : List α)
+    (l0 : ind.1.length = xo.length) (l1 : ind.2.length = xo.length)
+    (hstart : ∀ x, xo.head? = some x → 0 < x) (hm : Mosaic [ind.1, ind.2] xo g) :
+    ∃ r : List ρ', r.length = xo.length ∧ (∀ y ∈ r, (0 : ρ') ≤ y) ∧ gamete ind (xoMask r xo) = g :=
+  gamete_realises xo ind g l0 l1 hstart hm
+
+/-- **Completeness of the Spec (two-way cross, no selfing).**  If `specMate` is true of an output
+    (rectangular parents, configuration of width 2, first marker with positive crossover
+    probability, names below the 7-digit overflow) then that output — rows, counters — IS the model's
+    output for some non-negative draws: here the Spec demands exactly what the model can do.
+
+    FULL STATEMENT (not proved; for the other protocols / nself > 0 it needs the converse of
+    `joint_pedigree_test_accepts`, i.e. construction of the intermediate hybrids from a run of states):
+      (specMate P pop xc nmating nprogeny nself xo pc fc out).1 = true →
+        ∃ draws, Nonneg draws ∧ ∃ out', mate P pop xc nmating nprogeny nself xo pc fc draws = .ok out' ∧
+          out'.rows = out.rows ∧ out'.pc = out.pc ∧ out'.fc = out.fc -/
+theorem spec_complete_twoWay_partial {ρ' : Type} [LinearOrder ρ'] [Zero ρ'] {pop : Pop α} {xc : List (List Nat)}
+    {nmating nprogeny : Cnt} {xo : List ρ'} {pc fc : Nat} {out : Out α}
+    (hs : popShaped pop xo.length = true) (hw : ∀ r ∈ xc, r.length = 2)
+    (hstart : ∀ x, xo.head? = some x → 0 < x) (hsmall : pc + out.rows.length ≤ 10 ^ 7)
+    (hspec : (specMate .twoWay pop xc nmating nprogeny 0 xo pc fc out).1 = true) :
+    ∃ draws : List (DrawMat ρ'), Nonneg draws ∧ ∃ out', mate .twoWay pop xc nmating nprogeny 0 xo pc fc draws = .ok out' ∧
+      out'.rows = out.rows ∧ out'.pc = out.pc ∧ out'.fc = out.fc :=
+  spec_complete_twoWay hs hw hstart hsmall hspec
 
 /-- The reachability test used by the Spec decides the mosaic predicate exactly. -/
 theorem mosaicCheck_correct (srcs : List (List α)) (xo : List ρ) (o : List α) :
@@ -261,5 +364,28 @@ example : (specMate .twoWay demoPop [[0, 1]] (.scalar 1) (.scalar 2) 0 demoXo 5 
 /-- … and a switch at a marker whose crossover probability is zero -/
 example : mosaicCheck (α := Int) (ρ := Int) [[1, 2, 3], [4, 5, 6]] [1, 0, 1] [1, 5, 6] = false
     ∧ mosaicCheck (α := Int) (ρ := Int) [[1, 2, 3], [4, 5, 6]] [1, 0, 1] [1, 2, 6] = true := by decide +kernel
+
+example : ∀ x, demoXo.head? = some x → 0 < x := by intro x h; simp [demoXo] at h; omega
+example : ∀ r ∈ ([[0, 1]] : List (List Nat)), r.length = 2 := by decide
+example : ∀ k, k < Proto.threeWay.nparent → ([0, 1, 2] : List Nat).getD k 0 < demoPop.length := by decide
+
+/-- the last taxon addressed as `-1`; an index below `-ntaxa` is rejected when it is used -/
+example : wrapConfig 4 [[-1, 0], [3, -4]] = [[3, 0], [3, 0]] := by decide
+example : accepted ((mateFull (μ := Nat) .twoWay demoPop ⟨some 1, none, none, none, some 2, none, some 3, some 4, none, none, none, none, none⟩
+    [[-1, 0]] (.scalar 1) (.scalar 2) 0 demoXo 5 2 (List.replicate 2 (demoDraw 2))).map Prod.fst) = true := by decide +kernel
+example : accepted ((mateFull (μ := Nat) .twoWay demoPop ⟨none, none, none, none, none, none, none, none, none, none, none, none, none⟩
+    [[-5, 0]] (.scalar 1) (.scalar 2) 0 demoXo 5 2 (List.replicate 2 (demoDraw 2))).map Prod.fst) = false := by decide +kernel
+
+/-- the joint test is strictly sharper than the per-copy test: after one selfing of F×M (no crossover
+    possible at marker 1) the two copies [1,2] and [3,4] would need two different copies of the
+    female as copy 0 of the one hybrid — each copy alone passes, the pair is rejected; a pair that one
+    hybrid explains is accepted -/
+example :
+    let pop : Pop Int := [([1, 2], [3, 4]), ([5, 6], [7, 8])]
+    let xo : List Int := [1, 0]
+    mosaicCheck (sources .twoWay 1 pop [0, 1]).1 xo [1, 2] = true ∧
+    mosaicCheck (sources .twoWay 1 pop [0, 1]).2 xo [3, 4] = true ∧
+    pedCheck (pedOf .twoWay 1 [0, 1]) pop xo ([1, 2], [3, 4]) = false ∧
+    pedCheck (pedOf .twoWay 1 [0, 1]) pop xo ([1, 2], [7, 8]) = true := by decide +kernel
 
 end C01
